@@ -62,6 +62,9 @@ def rule_holders(ctx):
     for k in facts.crate("nucleo")["consts"]:
         if k["kind"] == "static" and "boxcar::Vec" in (k.get("ty") or ""):
             ctx.violation("%s|static|1" % k["path"], k["path"], "static holds the item stream")
+    if facts.body("nucleo", "State::matcher_item_refs") is None:
+        formula_by_state(ctx)
+        return
     fn = get_fn(facts, "nucleo", AI)
     key = AI + "|formula|1"
 
@@ -125,8 +128,86 @@ def rule_holders(ctx):
         ctx.ok(site(fn, 0), "strong_count(self.items) − matcher_item_refs(state) [Nucleo + Worker] − ptr_eq(snapshot.items, self.items) [Snapshot] on all %d return paths" % n)
 
 
+def formula_by_state(ctx):
+    """active_injectors, decided per state: the method is made one loop-free body (State's and Nucleo's private helpers
+    spliced in), its return paths are enumerated, and on each path the value must be
+        strong_count(self.items) - (1 + [the worker holds the current stream in this state]) - [snapshot.items is self.items]
+    for every State variant the path admits (Init, Fresh: worker on the current stream; Cleared: worker still on the old one)."""
+    import ticktrace as T
+    facts = ctx.facts
+    fn, nraw, paths = T.canonical_paths(facts, path=AI)
+    if not paths:
+        raise Inconclusive("active_injectors: no return path")
+    worker_on_current = {"Init": 1, "Cleared": 0, "Fresh": 1}
+    st = facts.adt("nucleo", "State")
+    names = [v["name"] for v in st["variants"]]
+    for nme in names:
+        if nme not in worker_on_current:
+            raise Inconclusive("new State variant %s: not covered by the accounting table" % nme)
+
+    def is_peq(x):
+        if x[0] == "call" and x[1] == "from" and len(x[2]) == 1:
+            x = x[2][0]
+        if x[0] == "call" and x[1] == "ptr_eq" and len(x[2]) == 2:
+            a_, b_ = x[2]
+            flat = sorted([T.fmt(a_), T.fmt(b_)])
+            return "snapshot" in flat[0] + flat[1] and ("(self items)" in flat[0] or "(self items)" in flat[1])
+        return False
+
+    def atomizer(x):
+        if x[0] == "call" and x[1] == "strong_count" and len(x[2]) == 1:
+            return "STRONG(self.items)" if x[2][0] == ("init", ("self", "items")) else "?strong_count(%s)" % T.fmt(x[2][0])[:40]
+        if is_peq(x):
+            return "PEQ"
+        return None
+
+    def poly(e):
+        a = atomizer(e)
+        if a is not None:
+            return Poly.atom(a)
+        if e[0] == "const" and isinstance(e[1], int):
+            return Poly.const(e[1])
+        if e[0] == "bin" and e[1] in ("Add", "Sub", "Mul"):
+            x, y = poly(e[2]), poly(e[3])
+            return x + y if e[1] == "Add" else (x - y if e[1] == "Sub" else x * y)
+        return Poly.atom("?" + T.fmt(e)[:60])
+
+    bad = None
+    n = 0
+    for known, events in paths:
+        res = events[-1][1]
+        # a test of ptr_eq on the path fixes the bracket
+        k2 = dict(known)
+        peq_known = None
+        for a_, v_ in known.items():
+            if isinstance(a_, tuple) and is_peq(a_) and isinstance(v_, int):
+                peq_known = v_
+        got = poly(T.subst(res, k2))
+        states = known.get(("init", ("self", "state")), frozenset(names))
+        for sname in sorted(states):
+            n += 1
+            want = Poly.atom("STRONG(self.items)") - Poly.const(1 + worker_on_current[sname])
+            want = want - (Poly.const(peq_known) if peq_known is not None else Poly.atom("PEQ"))
+            if got != want and bad is None:
+                bad = (sname, got, want)
+    key = AI + "|formula|1"
+    if bad:
+        sname, got, want = bad
+        if "STRONG(self.items)" not in got.atoms():
+            ctx.violation(key, site(fn, 0), "the count does not start from Arc::strong_count(&self.items) (the CURRENT stream): %s" % got)
+        else:
+            ctx.violation(key, site(fn, 0), "in state %s the count is %s, the holders give %s (Nucleo.items%s, and the snapshot when it points at the current stream)"
+                          % (sname, got, want, " + Worker.items" if worker_on_current[sname] else "; the worker still holds the OLD stream"))
+    else:
+        ctx.ok(site(fn, 0), "per state and return path (%d cases): strong_count(self.items) - 1 - [worker on the current stream] - [snapshot on the current stream]" % n)
+
+
 def rule_refs_table(ctx):
     facts = ctx.facts
+    if facts.body("nucleo", "State::matcher_item_refs") is None:
+        # the table has been folded into active_injectors: decided there, state by state
+        formula_by_state(ctx)
+        return
     fn = get_fn(facts, "nucleo", "State::matcher_item_refs")
     st = facts.adt("nucleo", "State")
     variants = {v["discr"]: v["name"] for v in st["variants"]}
